@@ -63,6 +63,15 @@ def one(ctx, rng, k):
                 raise RuntimeError(f'CLI exit {r.exit_code}: {r.exception!r}')
         else:
             with SgzConverter(sgz) as c:
+                # the exporting object may have been used for header look-ups before (either padding mode)
+                pre = (k // 4) % 4
+                desc['reads_before_export'] = ['none', 'gen_trace_header', 'read_variant_headers(include_padding=True)',
+                                               'read_variant_headers(include_padding=True) + gen_trace_header'][pre]
+                ctx.stats['pre_export_reads_%d' % pre] += 1
+                if pre in (2, 3):
+                    c.read_variant_headers(include_padding=True)
+                if pre in (1, 3):
+                    c.gen_trace_header(0)
                 env.quiet(c.convert_to_segy, exp)
     except Exception as e:  # noqa
         ctx.fail(f'convert/export failed: {type(e).__name__}: {str(e)[:140]}', desc)
